@@ -9,5 +9,8 @@ import (
 
 func htmlEntityDecode(data string) (string, bool, error) {
 	transformedData := html.UnescapeString(data)
-	return transformedData, len(data) != len(transformedData), nil
+	// The lengths alone do not tell whether something was decoded: "&#0" and
+	// its expansion U+FFFD are both 3 bytes long, "&nGg;" and U+22D9 U+0338
+	// are both 5 bytes long.
+	return transformedData, data != transformedData, nil
 }
